@@ -365,6 +365,29 @@ class Guards:
         sites = [bi for bi, si, s in cb.stmts() if s["k"] == "assign" and s["place"]["l"] == 0 and not s["place"]["proj"]
                  and s["rv"]["k"] == "agg" and s["rv"].get("variant") in ("Ok", "Some")]
         if not sites:
+            # the callee may hand on the result of a private helper of its own (`fn fit(..) { … result.into_result() }`):
+            # look at it with its private helpers spliced in; the helper's return slot flows into the callee's
+            try:
+                mb = merged(self.ev.facts, self.ev.facts.bodies[key])
+            except Exception:
+                mb = None
+            if mb is not None and mb is not self.ev.facts.bodies[key]:
+                menv = Env(mb, {i + 1: x for i, x in enumerate(args)}, self.env.depth + 1, path=self.env.path + ((body.key, cbi),))
+                slots = {0}
+                changed = True
+                while changed:
+                    changed = False
+                    for bi, si, s in mb.stmts():
+                        if s["k"] == "assign" and s.get("inl") == "ret" and not s["place"]["proj"] and s["place"]["l"] in slots and s["rv"]["k"] == "use" \
+                                and s["rv"]["op"]["k"] in ("move", "copy") and not s["rv"]["op"]["place"]["proj"] and s["rv"]["op"]["place"]["l"] not in slots:
+                            slots.add(s["rv"]["op"]["place"]["l"])
+                            changed = True
+                msites = [bi for bi, si, s in mb.stmts() if s["k"] == "assign" and s["place"]["l"] in slots and not s["place"]["proj"]
+                          and s["rv"]["k"] == "agg" and s["rv"].get("variant") in ("Ok", "Some")]
+                if msites:
+                    cb, cenv, sites = mb, menv, msites
+                    cg = Guards(self.ev, cb, cenv)
+        if not sites:
             return [], []
         rel_sets, raw_sets = [], []
         for sb in sites:
